@@ -10,6 +10,7 @@ pub mod c18i;
 pub mod c19;
 pub mod c19s;
 pub mod c19x;
+pub mod c19y;
 pub mod c20;
 pub mod c28;
 pub mod c32;
@@ -25,6 +26,7 @@ pub mod gt;
 pub mod lp;
 pub mod lpstake;
 pub mod oracle;
+pub mod oracle_ix;
 pub mod perp;
 pub mod pure;
 pub mod revertible;
@@ -54,12 +56,12 @@ pub const REGISTRY: &[(&str, fn(&mut Ctx))] = &[
     ("C16", c16::run),
     ("C17", c17::run),
     ("C18", c18::run),
-    ("C24", oracle::run_c24),
-    ("C25", oracle::run_c25),
+    ("C24", run_c24_all),
+    ("C25", run_c25_all),
     ("C26", conv::run_c26),
     ("C27", conv::run_c27),
     ("C28", c28::run),
-    ("C29", oracle::run_c29),
+    ("C29", run_c29_all),
     ("C30", gt::run_c30),
     ("C31", gt::run_c31),
     ("C32", run_c32_all),
@@ -96,4 +98,19 @@ fn run_c09_all(ctx: &mut crate::engine::Ctx) {
 fn run_c32_all(ctx: &mut crate::engine::Ctx) {
     c32::run(ctx);
     exchange::run_c32_settlement(ctx);
+}
+
+/// C24/C25/C29: hook-level searches + the instruction paths (real `set_prices_from_price_feed`,
+/// `update_price_feed_with_chainlink` through the mock verifier CPI) in svm-lite.
+fn run_c24_all(ctx: &mut crate::engine::Ctx) {
+    oracle::run_c24(ctx);
+    oracle_ix::run_c24_instr(ctx);
+}
+fn run_c25_all(ctx: &mut crate::engine::Ctx) {
+    oracle::run_c25(ctx);
+    oracle_ix::run_c25_instr(ctx);
+}
+fn run_c29_all(ctx: &mut crate::engine::Ctx) {
+    oracle::run_c29(ctx);
+    oracle_ix::run_c29_instr(ctx);
 }
